@@ -24,7 +24,7 @@ def collect_syms(t, acc, seen):
         collect_syms(t.body(), acc, seen); return
     if z3.is_app(t):
         d = t.decl()
-        if d.kind() == z3.Z3_OP_UNINTERPRETED and t.num_args() > 0:
+        if d.kind() == z3.Z3_OP_UNINTERPRETED and (t.num_args() > 0 or d.name().startswith('strlit!')):
             acc.add(d.name())
         for c in t.children():
             collect_syms(c, acc, seen)
@@ -173,12 +173,16 @@ class GoExec:
     def relevant_axioms(self, terms):
         """global axioms are included only when they share an uninterpreted symbol with the obligation (closure)"""
         axs = self.base_hyps()
-        if not axs:
-            return []
         syms = set()
         seen = set()
         for t in terms:
             collect_syms(t, syms, seen)
+        litf = []
+        for s in syms:
+            if s.startswith('strlit!'):
+                litf += lit_facts(STRLIT_BY_NAME[s])
+        if not axs:
+            return litf
         info = []
         for a in axs:
             s = set(); collect_syms(a, s, set())
@@ -190,7 +194,7 @@ class GoExec:
             for i, (a, s) in enumerate(info):
                 if not used[i] and (s & syms):
                     used[i] = True; out.append(a); syms |= s; changed = True
-        return out
+        return out + litf
 
     # ------------------------------------------------------------------ integer helpers
     def wrap(self, v, tid, st=None, line=None, what='overflow'):
@@ -252,6 +256,9 @@ class GoExec:
         if o is None:
             raise Unsupported('unresolved identifier %s' % e['Name'])
         if o['kind'] == 'Var':
+            bx = st.meta.get('boxed')
+            if bx and o['id'] in bx:
+                return self.load_ptr(st, bx[o['id']])
             if o['id'] in st.env:
                 return st.env[o['id']]
             if o.get('global'):
@@ -269,7 +276,11 @@ class GoExec:
             gk = o.get('pkg', '') + '.' + o['name']
             g = self.dump.get('globals', {}).get(gk)
             st.ghost[key] = self.lay.fresh(o['t'], 'g.' + o['name'])
-            st.pc += self.lay.wf(st.ghost[key], o['t'])
+            ws = self.lay.wf(st.ghost[key], o['t'])
+            st.pc += ws
+            if st.entry is not None and key not in st.entry.ghost:
+                st.entry.ghost[key] = st.ghost[key]
+                st.entry.pc += ws
         return st.ghost[key]
 
     def ev_BasicLit(self, st, e):
@@ -332,6 +343,16 @@ class GoExec:
                 # arithmetic shift right = floor division
                 return a / (1 << kc)
             raise Unsupported('variable shift in mode int @%s' % line)
+        if op == '|':
+            for x, y in ((a, b), (b, a)):
+                yc = z3.simplify(y)
+                if z3.is_int_value(yc):
+                    m = yc.as_long()
+                    if m > 0 and (m & (m - 1)) == 0:      # x | 2^k: set bit k (two's complement, floor division)
+                        return z3.If((x / m) % 2 == 0, x + m, x)
+                    if m == 0:
+                        return x
+            raise Unsupported('bitwise | of two variables in mode int @%s' % line)
         if op == '&':
             for x, y in ((a, b), (b, a)):
                 yc = z3.simplify(y)
@@ -458,6 +479,18 @@ class GoExec:
         if x['_'] == 'CompositeLit':
             v = self.ev(st, x)
             return self.alloc(st, v, x['t'])
+        if x['_'] == 'ParenExpr':
+            return self.addr_of(st, x['X'])
+        if x['_'] == 'Ident' and x.get('obj', {}).get('kind') == 'Var' and not x['obj'].get('global'):
+            oid = x['obj']['id']
+            boxed = st.meta.get('boxed', {})
+            if oid in boxed:
+                return boxed[oid]
+            p = self.alloc(st, st.env[oid], x['obj']['t'])     # the variable now lives in the heap
+            nb = dict(boxed); nb[oid] = p; st.meta['boxed'] = nb
+            return p
+        if x['_'] == 'SelectorExpr' and x.get('sel', {}).get('kind') == 'field':
+            raise Unsupported('address of a field @%s' % x.get('line'))
         raise Unsupported('address-of @%s' % x.get('line'))
 
     def alloc(self, st, v, tid):
